@@ -144,11 +144,15 @@ def body_cstruct(E, which, n):
         E.prove(E.any([E.all([E.eq(d[i], z[i] - xopt[i]) for i in range(n)]) for z in outs]), which + ':step-is-a-projection-output-minus-centre')
 
 
-def body_trs_regularised(E, n):
+def body_trs_regularised(E, n, proj=False):
     """Controller.trust_region_step with h: the step handed back never has a negative predicted reduction"""
     from ..state import mk_controller, EvalLog, mk_objfun
     np = E.np
     C, M, ghost, params = mk_controller(E, n, 1, n + 1, n + 1, with_h=True, with_save=False, objfun=None, kopt_minimal=True)
+    if proj:
+        # general convex constraints: the model maps points to user space through the alternating projection (identity stand-in here)
+        M.projections = [lambda w: w, lambda w: w]
+        E.patch('dykstra', lambda P, x0, max_iter=100, tol=1e-10: x0.copy())
     dstub = E.vec('dS', n)
 
     def sfista(xopt, g, H, projections, delta, h, L_h, prox_uh, **kw):
@@ -193,10 +197,10 @@ def harnesses(tier, seed):
                               bounds="n=%d, every loop of the solver cut to 2 iterations (the loop body is the same each time)" % n,
                               assumptions=["dykstra stubbed: arbitrary output; with C15 (result = last projector's output) and pball[n] this gives ||d|| <= Delta",
                                            "one user projector (identity stand-in; only its position in the list matters)"],
-                              expect=[which + ':ball-projected-last-with-right-centre-and-radius'], nproc=1, replay=False))
-    for n in ([1] if tier == 'quick' else [1, 2]):
-        hs.append(Harness("regularised-step[n=%d]" % n, 'dfverif.checks.c13', 'body_trs_regularised', params=dict(n=n), cfg=nra(),
-                          functions=FUNCS, bounds="n=%d, m=1, any model, any step returned by S-FISTA" % n,
+                              expect=[which + ':ball-projected-last-with-right-centre-and-radius'], nproc=1))
+    for (n, pj) in ([(1, False), (1, True)] if tier == 'quick' else [(1, False), (1, True), (2, False), (2, True)]):
+        hs.append(Harness("regularised-step[n=%d,projections=%d]" % (n, pj), 'dfverif.checks.c13', 'body_trs_regularised', params=dict(n=n, proj=pj), cfg=nra(),
+                          functions=FUNCS, bounds="n=%d, m=1, any model, any step returned by S-FISTA, %s" % (n, 'user projections' if pj else 'bounds only'),
                           assumptions=["ctrsbox_sfista stubbed: arbitrary step", "h(x) = lam*sum|x_i-c_i|"],
                           expect=['regularised-step:predicted-reduction-non-negative'], nproc=1))
     return hs
